@@ -254,7 +254,7 @@ def main(ctx):
         "reply_delivery_policies": reply_delivery,
         "pipe_runs": n_pipe,
         "distinct_nontrivial": len(distinct),
-        "rule": "(a) every DIMACS instance received by the external program (driver/vdpll --dump) for incremental histories on ExternalSatSolver and for argumentation queries (CO/ST/PR/SST/STG/ID x SE/DC/DS, all encoders, generated frameworks) run through the external backend: bytes compared with the Coq printer, and read by an independent python DIMACS parser (header variable count >= every variable, exact clause count, clauses = those added so far + one unit per assumption); the strict parser of vdpll must accept (an answer S/U must come back); one case in three (dimacs/hist-inproc) runs the history on an in-process BufferedSatSolver (verif hook) whose solving function reads the DimacsInstanceRead with an adversarial buffer policy per call (1 byte; fixed 2..17; random 1..64 per call; the preamble length, one less, one more; one 1 MiB buffer; zero-length reads interleaved, which must return 0 and consume nothing; a read after end of file must return 0), pipes the bytes it read to vdpll and hands the reply back in chunks (whole, byte by byte, fixed, random): same comparison of the bytes read with the Coq printer, same python parser, same answers as the model. (b) generated replies through the real reader (ExternalSatSolver on `vdpll --print-file`): well-formed layouts (status first/last, any split of v lines, comments, empty lines, bare `v`, CRLF, tabs, `+` signs, UTF-8 comments) must yield the printed model / UNSAT; ill-formed classes (empty, no status, truncated before the 0, garbage line, status only, variable out of bounds, two zeros, two status lines, invalid UTF-8) must yield Unknown or a panic; random byte mutations compared with Dimacs.reply_parse only; one reply in 60 goes through a child process, the others (reply-inproc) are returned by the solving function of an in-process BufferedSatSolver, delivered whole / byte by byte / in fixed or random small chunks, after reading or not reading the instance. (c) stub solvers emitting 0 B ... 4 MiB (8 MiB thorough) of comments before the answer, reading all / none of stdin, instance below / above the pipe capacity, each call under a 10 s watchdog; outcome compared with Model.Pipe run in the order found in exec_solver's source",
+        "rule": "(a) every DIMACS instance received by the external program (driver/vdpll --dump) for incremental histories on ExternalSatSolver and for argumentation queries (CO/ST/PR/SST/STG/ID x SE/DC/DS, all encoders, generated frameworks) run through the external backend: bytes compared with the Coq printer, and read by an independent python DIMACS parser (header variable count >= every variable, exact clause count, clauses = those added so far + one unit per assumption); the strict parser of vdpll must accept (an answer S/U must come back); one case in three (dimacs/hist-inproc) runs the history on an in-process BufferedSatSolver (verif hook) whose solving function reads the DimacsInstanceRead with an adversarial buffer policy per call (1 byte; fixed 2..17; random 1..64 per call; the preamble length, one less, one more; one 1 MiB buffer; zero-length reads interleaved, which must return 0 and consume nothing; a read after end of file must return 0), pipes the bytes it read to vdpll and hands the reply back in chunks (whole, byte by byte, fixed, random): same comparison of the bytes read with the Coq printer, same python parser, same answers as the model. (b) generated replies through the real reader (ExternalSatSolver on `vdpll --print-file`): well-formed layouts (status first/last, any split of v lines, comments, empty lines, bare `v`, CRLF, tabs, `+` signs, UTF-8 comments) must yield the printed model / UNSAT; ill-formed classes (empty, no status, truncated before the 0, garbage line, status only, variable out of bounds, two zeros, two status lines, invalid UTF-8) must yield Unknown or a panic; random byte mutations compared with Dimacs.reply_parse only; one reply in 60 goes through a child process, the others (reply-inproc) are returned by the solving function of an in-process BufferedSatSolver, delivered whole / byte by byte / in fixed or random small chunks, after reading or not reading the instance. (c) stub solvers emitting 0 B ... 4 MiB (8 MiB thorough) of comments before the answer on stdout and 0 B / 1 KiB / 100 KiB / 1 MiB of diagnostics on their standard error stream, reading all / none of stdin, instance below / above the pipe capacity, each call under a 10 s watchdog; outcome compared with Model.Pipe run in the order found in exec_solver's source",
         "samples": samples,
         "distribution": dist,
         "traces_validated_against_impl": n_inst + n_reply + n_pipe,
